@@ -41,7 +41,7 @@ func Harness_C06_sth() {
 	}
 	var got ct.GetSTHResponse
 	vAssert(vJSONDecode(w.body, &got) == nil, "response is JSON")
-	ms := tsNanos / 1000000
+	ms := tsNanos / 1000 / 1000 // same expression shape as the code under test keeps the query trivial; any other divisor still yields a decidable difference
 	vAssert(got.TreeSize == size && got.Timestamp == ms && bytes.Equal(got.SHA256RootHash, root), "STH reports the backend's tree size, root and millisecond timestamp")
 	want := sha256.Sum256(rfcSTHSignatureInput(ms, size, root))
 	vAssert(len(sg.digests) == 1 && bytes.Equal(sg.digests[0], want[:]), "the log signer signed SHA-256 of the RFC 6962 TreeHeadSignature input of exactly these values")
@@ -99,8 +99,15 @@ func Harness_C06_leafhash() {
 	c := envCert("cert", 1+vChoice("der-len", 3))
 	envChain, envChainErr = append([]*x509.Certificate{c}, envCert("root", 1)), nil
 	var queued []byte
+	duplicate := vChoice("duplicate", 2) == 1
+	storedTS := vU64("stored-ts")
 	be.queueLeaf = func(in *trillian.QueueLeafRequest) (*trillian.QueueLeafResponse, error) {
 		queued = in.Leaf.LeafValue
+		if duplicate {
+			// the log already holds this certificate: the sequenced entry is the older one
+			queued = rfcMerkleTreeLeaf(storedTS, false, c.Raw, nil, nil, nil)
+			return &trillian.QueueLeafResponse{QueuedLeaf: &trillian.QueuedLogLeaf{Leaf: &trillian.LogLeaf{LeafValue: queued, ExtraData: in.Leaf.ExtraData, LeafIdentityHash: in.Leaf.LeafIdentityHash}}}, nil
+		}
 		return &trillian.QueueLeafResponse{QueuedLeaf: &trillian.QueuedLogLeaf{Leaf: in.Leaf}}, nil
 	}
 	w := &envWriter{}
@@ -114,7 +121,7 @@ func Harness_C06_leafhash() {
 	// client side: certificate + SCT timestamp only
 	leaf := ct.CreateX509MerkleTreeLeaf(ct.ASN1Cert{Data: c.Raw}, rsp.Timestamp)
 	h, err := ct.LeafHashForLeaf(leaf)
-	backend := sha256.Sum256(append([]byte{0x00}, queued...)) // RFC 6962 2.1 leaf hash of the stored LeafValue
-	vAssert(err == nil && h == backend, "client-computed leaf hash equals the backend's Merkle leaf hash of the queued leaf")
+	backend := sha256.Sum256(append([]byte{0x00}, queued...)) // RFC 6962 2.1 leaf hash of the entry the log holds
+	vAssert(err == nil && h == backend, "client-computed leaf hash equals the backend's Merkle leaf hash of the entry the log holds (fresh or duplicate)")
 	vReach("agree")
 }
